@@ -523,7 +523,7 @@ fn field_e<E: Field, Fl: TestFlag>(ctx: &mut Ctx, name: &str) {
                     let r = v.serialize_with_flags(&mut w, fl);
                     let n = 24 - w.len();
                     loc.check_at("bytes/reserialize_identical", r.is_ok() && buf[..n] == *b, || {
-                        format!("{name}/{}: bytes {} deserialize to {:?} flag {f:#x} which re-serializes to {}", Fl::NAME, hex(b), &small_coeffs(v)[..m.d], hex(&buf[..n]))
+                        format!("{name}/{}: bytes {} (model: {want:?}) deserialize to {:?} flag {f:#x} which re-serializes to {}", Fl::NAME, hex(b), &small_coeffs(v)[..m.d], hex(&buf[..n]))
                     });
                 }
             }
@@ -776,7 +776,10 @@ fn field_a<E: Field, Fl: TestFlag>(ctx: &mut Ctx, name: &str) {
             if let Some(fl) = Fl::of_mask(*f) {
                 let mut out = Vec::new();
                 let r = v.serialize_with_flags(&mut out, fl);
-                loc.check_at("alpha/reserialize_identical", r.is_ok() && out == *b, || format!("{name}/{}: bytes {} deserialize to {} flag {f:#x} which re-serializes to {}", Fl::NAME, hex(b), show(&coeffs(v)), hex(&out)));
+                loc.check_at("alpha/reserialize_identical", r.is_ok() && out == *b, || {
+                    let wn = match &want { BDec::Stray => "stray bit above the modulus bit length", BDec::GeP => "integer >= p", BDec::BadFlags => "illegal flag pattern", _ => "canonical" };
+                    format!("{name}/{}: bytes {} (model: {wn}) deserialize to {} flag {f:#x} which re-serializes to {}", Fl::NAME, hex(b), show(&coeffs(v)), hex(&out))
+                });
             }
         }
         let pos = rd.pos;
